@@ -442,7 +442,17 @@ impl JobServer {
                         // die abnormally.  Since a child has died, that means a token has
                         // 'disappeared' and we now need to recreate it.
                         let mut b: [u8; 1] = [0];
-                        match try_read(self.params.cheat_fds.0, &mut b) {
+                        // While we have a cheat of our own outstanding, the token of the
+                        // child that just died settles *that* (create_tokens below); an
+                        // IOU left on cheatfds by some other cheater is for someone
+                        // else's child to cancel.  Taking it here would leave us with
+                        // a cheat and no token to show for it.
+                        let iou = if state.cheats > 0 {
+                            Ok(None)
+                        } else {
+                            try_read(self.params.cheat_fds.0, &mut b)
+                        };
+                        match iou {
                             Ok(Some(1)) => {
                                 // someone exited with _cheats > 0, so we need to compensate
                                 // by *not* re-creating a token now.
